@@ -90,6 +90,10 @@ def generate(prng, tier, index):
             sc["spec"]["jd_type"] = jt
         else:
             sc["jd_type"] = jt
+    if prng.random() < 0.25:
+        # round 13: after the history, the overall-degree extractor also runs on a copy in which one vertex is LABELLED by
+        # the tuple (u, v) of two adjacent vertices (and another by (v, u)); the value picks the edge
+        sc["tuple_label"] = prng.randrange(2 ** 31)
     return sc
 
 
@@ -294,6 +298,44 @@ def _execute(sc, ctx):
     after = netsim.snapshot(G) if sc["source"] != "huge" else (G.number_of_nodes(), G.number_of_edges())
     ctx.expect(f"{P}.input", after == before, "the network was modified by extraction")
     ctx.nt = G.number_of_edges() >= 2 and extractions >= 2
+    if sc.get("tuple_label") is not None and sc["source"] != "huge":
+        tuple_label_step(sc, ctx, src, G)
+
+
+def tuple_label_step(sc, ctx, src, G):
+    """A valid network in which a vertex is labelled by the tuple of two ADJACENT vertices' labels, in both orientations:
+    anything that hands an edge tuple to a networkx view that also accepts a single vertex then reads it as that vertex."""
+    P = "C13"
+    edges = [(u, v) for u, v in G.edges() if u != v]
+    if not edges:
+        return
+    u, v = edges[sc["tuple_label"] % len(edges)]
+    others = [w for w in G.nodes() if w != u and w != v]
+    if not others or (u, v) in G or (v, u) in G:
+        return
+    mapping = {others[0]: (u, v)}
+    if len(others) > 1:
+        mapping[others[-1]] = (v, u)
+    H = nx.relabel_nodes(G, mapping, copy=True)
+    ctx.probe("vertex_labelled_by_the_tuple_of_an_adjacent_pair")
+    st, m = ctx.call(src, JointExcessDegree.get_ejk, H, label="overall[tuple-labelled vertex]")
+    ctx.check(f"{P}.overall")
+    if st != "ok":
+        ctx.violate(f"{P}.raised", f"JointExcessDegree.get_ejk on a network with a vertex labelled {(u, v)!r}: {st} "
+                                   f"{describe_exc(m) if st == 'raised' else ''}")
+        return
+    deg = dict(H.degree())
+    ref = {}
+    E = H.number_of_edges()
+    for a0, b0 in H.edges():
+        a, b = deg[a0] - 1, deg[b0] - 1
+        ref[(a, b)] = ref.get((a, b), 0) + 1
+        ref[(b, a)] = ref.get((b, a), 0) + 1
+    ref = {k2: c / (2 * E) for k2, c in ref.items()}
+    tol_o = TOL + 4.5e-16 * 2 * E
+    if set(m) != set(ref) or any(abs(m[k2] - ref[k2]) > tol_o for k2 in ref):
+        ctx.violate(f"{P}.overall", f"overall-degree matrix of a network with a vertex labelled {(u, v)!r} differs from the "
+                                    f"fraction of edge ends: got {sorted(m.items())[:3]}, expected {sorted(ref.items())[:3]}")
 
 
 def nontrivial(sc, ctx):
